@@ -408,10 +408,13 @@ def replay(pid, path):
         print("replay file carries no solver spec (wrapper / proof-stage finding): %s" % d.get("what", d.get("kind")))
         return 2
     bad = 0
+    known = {e["class_key"] for e in framework.load_known(pid)}
     for seed in (0,):
         rec, s, prob = trace.run_trace(spec, seed)
         res = solvermon.mon_c04(spec, rec, s) if pid == "C04" else MON[pid](spec, rec)
         for key, what, ex in res:
+            if key in known:
+                print("KNOWN-FINDING: property=%s %s [%s]" % (pid, what, key)); continue
             print("monitor: [%s] %s" % (key, what)); bad += 1
         for which in CORR[pid]:
             line, cmp = REQ[which](spec, rec)
